@@ -23,6 +23,9 @@ type C02Case struct {
 	// if the library rejects the text the case is skipped. What String() must describe is the content the
 	// container then has (Get / TypeOf), whatever the spelling it was read from.
 	Parsed string `json:"parsed,omitempty"`
+	// Share: the root holds the same non-empty container content twice and is built with ONE instance at
+	// both places (an acyclic structure in which a container is reachable along two paths)
+	Share bool `json:"share,omitempty"`
 }
 
 var lenientSpellings = []string{"0x1F", "0X1f", "0b101", "0o17", "017", "010", "1_000", "+1", ".5", "5.", "1E5", "1e5", "1.50", "1.0", "-0", "-0.0", "0e0",
@@ -56,6 +59,9 @@ func GenC02(t *rapid.T) *C02Case {
 		return &C02Case{Sweep: -1, Root: VList(), Parsed: genLenientText(t)}
 	}
 	c := &C02Case{Root: genTreeCase(t), Sweep: -1}
+	if oneIn(t, 8, "share") {
+		c.Root, c.Share = withSharedChild(t, c.Root)
+	}
 	if oneIn(t, 5, "remutate") {
 		c.Muts = genNestedMuts(t)
 	}
@@ -154,7 +160,10 @@ func CheckC02(c *C02Case, st *Stats) error {
 	if root.K != KList && root.K != KObject {
 		return nil
 	}
-	orig := Build(root)
+	orig := buildMaybeShared(root, c.Share)
+	if c.Share {
+		st.Count("shared_instance")
+	}
 	text := stringOf(orig)
 	if textNonTrivial(text) {
 		st.MarkNonTrivial()
@@ -200,7 +209,7 @@ func CheckC02(c *C02Case, st *Stats) error {
 
 func init() {
 	Register("C02",
-		"rapid-generated value trees as in C01 plus an exhaustive sweep of all 1,112,064 Unicode scalar values (each once inside a value and once inside a key, 256 per container). One case in twelve obtains its container by parsing a short text in the spellings the lenient parser tolerates (0x1F, 1_000, +1, .5, 1E5, 1.50, T ...) and is skipped if the library rejects it. The text of String() is read by a strict RFC 8259 scanner written in the harness (cross-checked against encoding/json on every case) and its token tree compared with the generator's tree. Non-trivial = the text contains an escape, a non-ASCII byte or an exponent-form number. Distinct = distinct FNV-64a hash of the case JSON.",
+		"rapid-generated value trees as in C01 (shared instances and 1001-1500 nesting levels included) plus an exhaustive sweep of all 1,112,064 Unicode scalar values (each once inside a value and once inside a key, 256 per container). One case in twelve obtains its container by parsing a short text in the spellings the lenient parser tolerates (0x1F, 1_000, +1, .5, 1E5, 1.50, T ...) and is skipped if the library rejects it. The text of String() is read by a strict RFC 8259 scanner written in the harness (cross-checked against encoding/json on every case) and its token tree compared with the generator's tree. Non-trivial = the text contains an escape, a non-ASCII byte or an exponent-form number. Distinct = distinct FNV-64a hash of the case JSON.",
 		GenC02, CheckC02)
 	_ = at.TypeNil
 }
